@@ -49,6 +49,13 @@ ObOf(e) ==
   [exit |-> e.exit, internal |-> e.internal, missing |-> SeqSet(e.out.missing),
    mismatch |-> SeqSet(e.out.mismatch), new |-> SeqSet(e.out.new), eff |-> e.eff]
 
+\* the packing list written by flatten (the latest manifest below the destination), as read back
+FlatOf(e) ==
+  LET S == {i \in DOMAIN e.flat.manifests : e.flat.manifests[i].latest}
+  IN IF S = {} THEN [files |-> <<>>, ndirs |-> 0, proc |-> "none"]
+     ELSE LET m == e.flat.manifests[CHOOSE i \in S : TRUE]
+          IN [files |-> ToFn(m.files, KeyP, LAMBDA r : ToFn(r.ents, KeyF, EntOf)), ndirs |-> m.ndirs, proc |-> m.proc]
+
 (***************************************************************************)
 (* Byte-level clauses that only exist on real traces                       *)
 (***************************************************************************)
@@ -125,6 +132,23 @@ P_C08_RefBytes(e) ==
      \A k \in DOMAIN e.post.hist[j].gens[i].refs :
         LET r == e.post.hist[j].gens[i].refs[k] IN r.shape /\ r.present /\ r.c4ok
 
+\* C08: a child manifest is completely written (opened for writing) before its parent's manifest
+WIdx(e, h, name) ==
+  LET S == {i \in DOMAIN e.writes : e.writes[i].k = "open-w" /\ e.writes[i].p.area = "hist"
+                                     /\ e.writes[i].p.h = h /\ e.writes[i].p.rest = name}
+  IN IF S = {} THEN 0 ELSE Min(S)
+P_C08_Order(e, pre, post) ==
+  \A j \in DOMAIN e.post.hist :
+     LET b == e.post.hist[j] IN
+     (b.h \in Wrote(pre, post)) =>
+        LET g == b.gens[Len(b.gens)]
+            me == WIdx(e, b.h, g.name)
+        IN /\ me > 0
+           /\ \A k \in DOMAIN g.refs :
+                 LET c == WIdx(e, g.refs[k].h, g.refs[k].name)
+                     cc == WIdx(e, g.refs[k].h, "ascmhl_chain.xml")
+                 IN c > 0 /\ c < me /\ cc > c /\ cc < me
+
 (***************************************************************************)
 (* Verdict for one line                                                    *)
 (***************************************************************************)
@@ -163,7 +187,8 @@ Verdict(e) ==
                P_C11_Valid |-> P_C11_Valid(e),
                P_C07_Recorded |-> P_C07_Recorded(e),
                P_C02_Paths |-> P_C02_Paths(e),
-               P_C08_RefBytes |-> P_C08_RefBytes(e)]
+               P_C08_RefBytes |-> P_C08_RefBytes(e),
+               P_C08_Order |-> (e.op.op \in {"create", "createsf"}) => P_C08_Order(e, pre, post)]
   IN IF IsCreate(o)
      THEN LET m == MRes(pre, dk, o)
               both == DOMAIN m.gens \cap W
@@ -209,6 +234,39 @@ Verdict(e) ==
               A_unchanged |-> Len(GensOf(pre, o.R)) > 0 /\ Unchanged(dk, sld, o.R, ign),
               A_nested |-> Cardinality(Visible(pre, dk, o.R)) > 1,
               A_ign |-> ign # {}]
+     ELSE IF o.op = "flatten"
+     THEN LET fl == FlatOf(e)
+              m  == FlattenResult(pre, o.R)
+          IN base @@
+             [kind |-> "flatten",
+              M_exit |-> m.exit = ob.exit,
+              M_files |-> (ob.exit = 0) => [p \in DOMAIN m.files |-> [f \in DOMAIN m.files[p] |-> m.files[p][f].c]]
+                                            = [p \in DOMAIN fl.files |-> [f \in DOMAIN fl.files[p] |-> fl.files[p][f].c]],
+              P_C18_Summary |-> P_C18_Summary(pre, dk, o, ob, fl),
+              P_C18_Valid |-> e.flat.collection_xsd /\ \A i \in DOMAIN e.flat.manifests : e.flat.manifests[i].xsd_ok,
+              A_flat |-> ob.exit = 0]
+     ELSE IF o.op = "verifypl"
+     THEN LET fl0 == FlatOf(e)
+              fl  == [files |-> [p \in {o.R \o q : q \in DOMAIN fl0.files} |-> fl0.files[Rel(o.R, p)]],
+                      complete |-> \A p \in DOMAIN dk : (Below(o.R, p) /\ dk[p] # "DIR" /\ p \notin ign)
+                                                            => Rel(o.R, p) \in DOMAIN fl0.files]
+          IN base @@
+             [kind |-> "verifypl",
+              P_C18_VerifyPL |-> P_C18_VerifyPL(dk, <<>>, o, ob, fl, ign),
+              A_flat |-> TRUE]
+     ELSE IF o.op = "info"
+     THEN LET ob2 == [exit |-> e.exit, listing |-> ToFn(e.info, LAMBDA x : x.h, LAMBDA x : x.ns)]
+          IN base @@
+             [kind |-> "info",
+              P_C19_Info |-> P_C19_Info(pre, dk, o, ob2),
+              P_C19_Dates |-> \A k \in DOMAIN e.info :
+                                 LET hh == RawHist(e.pre.hist, e.info[k].h)
+                                 IN hh # <<>> /\ e.info[k].dates = [i \in DOMAIN hh[1].gens |-> hh[1].gens[i].cdate]]
+     ELSE IF o.op = "infosf"
+     THEN LET ob2 == [exit |-> e.exit, lines |-> [i \in DOMAIN e.infosf |-> [n |-> e.infosf[i].n, f |-> e.infosf[i].f, c |-> e.infosf[i].c, a |-> e.infosf[i].a]]]
+          IN base @@
+             [kind |-> "infosf",
+              P_C19_InfoSF |-> P_C19_InfoSF(pre, dk, o, ob2)]
      ELSE base @@ [kind |-> "other"]
 
 \* the ghost variable of C03 is carried by the trace specification itself, from the observed
